@@ -25,8 +25,19 @@ def main():
         mod = importlib.import_module("checks." + pid.lower())
         chk = Check(pid, a.tier, seed, level=getattr(mod, "LEVEL", "model_checking"))
         if a.replay:
-            rc = mod.replay(chk, a.replay)
-            sys.exit(rc)
+            # deterministic replay: the exploration that produced the file is repeated with the stored tier and seed
+            # (every scenario is a pure function of them) and the stored witness key must show up again
+            import json
+            rec = json.load(open(a.replay))
+            chk = Check(pid, rec.get("tier", a.tier), rec.get("seed", seed), level=getattr(mod, "LEVEL", "model_checking"))
+            if hasattr(mod, "replay"):
+                sys.exit(mod.replay(chk, a.replay))
+            mod.run(chk)
+            hit = [v for v in chk.violations if v["key"] == rec.get("key")]
+            print("REPLAY %s: witness key %r %s" % (pid, rec.get("key"), "reproduced" if hit else "NOT reproduced"))
+            if hit:
+                print("VIOLATION property=%s replay=%s" % (pid, a.replay))
+            sys.exit(1 if hit else 0)
         mod.run(chk)
         rc = chk.finish()
     except tlc.TlcError as e:
